@@ -59,6 +59,13 @@ Definition q_over (X : list Q) (y : Q) : Q := qsum (map (fun x => Qpos_part (x -
 Definition Qmx (a b : Q) : Q := if Qle_bool a b then b else a.
 Definition Qmn (a b : Q) : Q := if Qle_bool a b then a else b.
 Definition Qclip (lo hi x : Q) : Q := Qmn (Qmx x lo) hi.
+(* ensemble Brier score at one threshold (operator.ge), with / without the fair correction; x/0 = 0 in Q, which is the
+   code's fillna(0) for a single member *)
+Definition q_ind_ge (a t : Q) : Q := if Qle_bool t a then 1 else 0.
+Definition brier_q (fair : bool) (X : list Q) (y t : Q) : Q :=
+  let i := qsum (map (fun x => q_ind_ge x t) X) in
+  let m := qlen X in
+  (i / m - q_ind_ge y t) * (i / m - q_ind_ge y t) - (if fair then i * (m - i) / (m * m * (m - 1)) else 0).
 (* the finite members of a case *)
 Fixpoint qvals (X : list xv) : list Q :=
   match X with [] => [] | XFin q :: t => q :: qvals t | _ :: t => qvals t end.
